@@ -40,15 +40,35 @@ type DirDB struct {
 
 func (d *DirDB) Dir() string { return d.dir }
 
+// The in-tree MemDB stores the caller's slices without copying, while the production
+// backend (goleveldb) copies; state/keyvalue.go writes its height marker from a
+// package-global buffer, so without copies every MemDB state database of the process
+// would alias that one buffer. Copy on the way in, like goleveldb does.
+func cpb(b []byte) []byte {
+	if b == nil {
+		return nil
+	}
+	return append([]byte{}, b...)
+}
+func (d *DirDB) Set(k, v []byte)       { d.DB.Set(cpb(k), cpb(v)) }
+func (d *DirDB) SetSync(k, v []byte)   { d.DB.SetSync(cpb(k), cpb(v)) }
+func (d *DirDB) Put(k, v []byte) error { return d.DB.Put(cpb(k), cpb(v)) }
+func (d *DirDB) NewBatch() dbm.Batch   { return &copyBatch{d.DB.NewBatch()} }
+
+type copyBatch struct{ dbm.Batch }
+
+func (b *copyBatch) Set(k, v []byte) { b.Batch.Set(cpb(k), cpb(v)) }
+func (b *copyBatch) Delete(k []byte) { b.Batch.Delete(cpb(k)) }
+
 // WrapDir wraps db so that Dir() is dir.
 func WrapDir(db dbm.DB, dir string) dbm.DB { return &DirDB{DB: db, dir: dir} }
 
 // DBs are the seven databases a node keeps.
 type DBs struct {
-	Dir                               string
-	State, Block, Tx, Balance         dbm.DB
-	UtxoKimg, UtxoOut, UtxoTokenOut   dbm.DB
-	Status                            dbm.DB // consensus status
+	Dir                             string
+	State, Block, Tx, Balance       dbm.DB
+	UtxoKimg, UtxoOut, UtxoTokenOut dbm.DB
+	Status                          dbm.DB // consensus status
 }
 
 // NewMemDBs creates in-memory databases with a private directory (for the undo log).
